@@ -4,7 +4,7 @@
 
    A skeleton keeps only: the EVENTS (a frame started, a frame record appended, a packet record logged, a
    decryption succeeded / failed, ...), branching (every test is an unknown decision, except the logger guard
-   `self._quic_logger is not None`, which is taken: these are the skeletons of a run WITH a logger), loops, and the
+   `self._quic_logger is not None`, which is taken: these are the skeletons of a wrun WITH a logger), loops, and the
    exits (return / continue / raise). *)
 From Coq Require Import String.
 From AQ Require Import lib.Base.
@@ -23,11 +23,11 @@ Inductive ws :=
 
 Inductive outcome := Fall | Exited (k : string).
 
-(* run: None = out of fuel.  ds = the decisions (true = then-branch / iterate once more; exhausted = false) *)
+(* wrun: None = out of fuel.  ds = the decisions (true = then-branch / iterate once more; exhausted = false) *)
 Definition next (ds : list bool) : bool * list bool :=
   match ds with [] => (false, []) | d :: r => (d, r) end.
 
-Fixpoint run (fuel : nat) (s : ws) (ds : list bool) : option (list ev * list bool * outcome) :=
+Fixpoint wrun (fuel : nat) (s : ws) (ds : list bool) : option (list ev * list bool * outcome) :=
   match fuel with
   | O => None
   | S f =>
@@ -36,21 +36,21 @@ Fixpoint run (fuel : nat) (s : ws) (ds : list bool) : option (list ev * list boo
       | WEv e => Some ([e], ds, Fall)
       | WExit k => Some ([], ds, Exited k)
       | WSeq a b =>
-          match run f a ds with
+          match wrun f a ds with
           | Some (t1, ds1, Fall) =>
-              match run f b ds1 with
+              match wrun f b ds1 with
               | Some (t2, ds2, o) => Some ((t1 ++ t2)%list, ds2, o)
               | None => None
               end
           | r => r
           end
-      | WIf a b => let (d, ds1) := next ds in if d then run f a ds1 else run f b ds1
+      | WIf a b => let (d, ds1) := next ds in if d then wrun f a ds1 else wrun f b ds1
       | WLoop body =>
           let (d, ds1) := next ds in
           if d then
-            match run f body ds1 with
+            match wrun f body ds1 with
             | Some (t1, ds2, Fall) =>
-                match run f (WLoop body) ds2 with
+                match wrun f (WLoop body) ds2 with
                 | Some (t2, ds3, o) => Some ((t1 ++ t2)%list, ds3, o)
                 | None => None
                 end
@@ -75,8 +75,8 @@ Fixpoint dfa_exec (D : dfa) (q : Q) (t : list ev) : option Q :=
   | e :: r => match delta D q e with Some q' => dfa_exec D q' r | None => None end
   end.
 
-(* check D s S = Some S': from every state of S every run of s is accepted so far, an exit happens only in a
-   state that allows it, and a run that falls through ends in a state of S' *)
+(* check D s S = Some S': from every state of S every wrun of s is accepted so far, an exit happens only in a
+   state that allows it, and a wrun that falls through ends in a state of S' *)
 Fixpoint all_some {A} (l : list (option A)) : option (list A) :=
   match l with
   | [] => Some []
